@@ -1,9 +1,10 @@
 import ScVerif.Base.Line
 import ScVerif.C13.WF
+import ScVerif.C13.Async
 /-! Driver handler for C13: parses one request line, runs the model, prints the canonical answer.
 
 ```
-wrap|grpc|legacy|wf <shape> <out-md> <srv-ops> <fin> <cli-ops>
+wrap|grpc|legacy|wf|async|asynclegacy <shape> <out-md> <srv-ops> <fin> <cli-ops> <reuse 0|1>
 open stream|invoke <method> <clientStreams> <serverStreams> live|cancel|deadline
 ```
 Encodings are those of harness/cmd/c13/script.go. -/
@@ -99,6 +100,10 @@ def showSEv : SEv → String
 def showTranscript (t : Transcript) : String :=
   ",".intercalate (t.client.map showEv) ++ "|" ++ ",".intercalate (t.server.map showSEv)
 
+/-- The set of possible client transcripts, `;`-separated, duplicates removed. -/
+def showRuns (rs : List (List Ev)) : String :=
+  ";".intercalate ((rs.map fun evs => ",".intercalate (evs.map showEv)).eraseDups)
+
 def showOpen : Open → String
   | .ok => "ok"
   | .unimplemented => "Unimplemented"
@@ -120,17 +125,20 @@ def handleOpt (toks : List String) : Option String :=
     | "stream" => pure (showOpen (Conn.newStream testApi ctx method cs ss))
     | "invoke" => pure (showOpen (Conn.invoke testApi ctx method))
     | _ => none
-  | [op, sh, out, srv, fin, cli] => do
+  | [op, sh, out, srv, fin, cli, reuse] => do
+    let reuse ← parseBool? reuse
     let shape ← parseShape? sh
     let out ← parseMD? out
     let ss ← parseList? parseSOp? srv
     let fin ← parseFin? fin
     let cs ← parseList? parseCOp? cli
     match op with
-    | "wrap" => pure (showTranscript (Wrap.run shape out ss fin cs))
-    | "legacy" => pure (showTranscript (Wrap.runCfg Cfg.legacy shape out ss fin cs))
-    | "grpc" => pure (showTranscript (GrpcRef.run shape out ss fin cs))
+    | "wrap" => pure (showTranscript (Wrap.run shape out ss fin cs reuse))
+    | "legacy" => pure (showTranscript (Wrap.runCfg Cfg.legacy shape out ss fin cs reuse))
+    | "grpc" => pure (showTranscript (GrpcRef.run shape out ss fin cs reuse))
     | "wf" => pure (showBool (WFScripts shape ss fin cs))
+    | "async" => pure (showRuns (Wrap.asyncRuns Cfg.current shape ss fin cs reuse))
+    | "asynclegacy" => pure (showRuns (Wrap.asyncRuns Cfg.legacy shape ss fin cs reuse))
     | _ => none
   | _ => none
 
